@@ -31,9 +31,16 @@ ASSUMPTIONS = [
 BUDGET_S = {"quick": 240, "thorough": 2400}
 MIN_EVALS = {"quick": 2000, "thorough": 40000}
 
+# the server hello is `01 <name> 00` and, with current firmware, further NUL-terminated fields behind it (MAC address, ...): a value with an
+# embedded NUL below stands for "<name> 00 <more fields>" (the responder appends the final 00); the announced name is what precedes the first NUL
 NAMES: list[tuple[str, bytes | None]] = [
     ("absent", None), ("empty", b""), ("ascii", b"livingroom"), ("utf8", "küche-日本".encode()), ("long", b"n" * 200),
+    ("ascii+mac", b"livingroom\x00aabbccddeeff"), ("utf8+two-fields", "küche".encode() + b"\x00aabbccddeeff\x00esp32"), ("empty+mac", b"\x00aabbccddeeff"),
 ]
+
+
+def announced(name: bytes) -> bytes:
+    return name.split(b"\x00")[0]
 
 
 def expected_variants(name: bytes | None) -> list[tuple[str, str | None]]:
@@ -41,7 +48,7 @@ def expected_variants(name: bytes | None) -> list[tuple[str, str | None]]:
     if name is None:
         out.append(("set-vs-absent", "livingroom"))
         return out
-    s = name.decode()
+    s = announced(name).decode()
     out.append(("equal", s))
     out.append(("different", s + "x"))
     if s.lower() != s.upper():
@@ -81,7 +88,7 @@ def run_case(psk: bytes, name: bytes | None, expected: str | None, msgs: list[tu
     def call_of(off: int) -> int:
         return next(j for j, b in enumerate(bounds) if b >= off)
 
-    must_reject = name is not None and expected is not None and name.decode() != expected
+    must_reject = name is not None and expected is not None and announced(name).decode() != expected
     for ch in chunks:
         obj, ba = wire.wrap_chunk(ch, kind)
         cont = d.feed(obj)
@@ -97,8 +104,8 @@ def run_case(psk: bytes, name: bytes | None, expected: str | None, msgs: list[tu
                              f"{c.fatal[0][0]!r}" if c.fatal else f"device name {name!r} != expected {expected!r} accepted"))
         else:
             e = c.fatal[0][0]
-            if e.received_name != name.decode():
-                problems.append(("bad-name-wrong-received-name", f"received_name={e.received_name!r} want {name.decode()!r}"))
+            if e.received_name != announced(name).decode():
+                problems.append(("bad-name-wrong-received-name", f"received_name={e.received_name!r} want {announced(name).decode()!r}"))
             if c.fatal[0][1] != call_of(hello_end):
                 problems.append(("bad-name-timing", f"reported in call {c.fatal[0][1]}, hello complete in call {call_of(hello_end)}"))
         if not isinstance(d.ready_exc, BadNameAPIError):
@@ -195,7 +202,7 @@ def shard(ctx: Ctx) -> None:
                     boundaries += [prev + 3, prev + 7, e]
                     prev = e
                 big = n > 3000
-                rejecting = name is not None and expected is not None and name.decode() != expected
+                rejecting = name is not None and expected is not None and announced(name).decode() != expected
                 gen = wire.chunkings(
                     n, boundaries, rng,
                     n_random=(8 if big else 25) * (4 if ctx.thorough else 1),
